@@ -143,19 +143,37 @@ def rule_tiling(chk: Check, view: AsyncView, rid: str):
     rate_i, phase_i = S("self.connection.output_node.rate"), S("self.connection.output_node.phase")
     t_high = T.add(T.div(N, rate_n), phase_n)
     t_low = T.add(T.div(T.sub(N, T.ONE), rate_n), phase_n)
-    # loop-carried tick time: the havoc symbol compared in the loop condition
-    tsyms = [x for x in T.walk(l.cond) if x[0] == "sym" and x[1].startswith(f"loop{lid}:")]
-    if len(tsyms) != 1:
-        chk.unknown(rid, "scan loop condition", f"cannot identify the scanned time in {T.show(l.cond)[:160]}", loc)
+    # the scanned time: the quantity whose comparison with t_high decides whether the scan goes on - the loop condition, or an
+    # unconditional `while True` left by a `break` (both say the same thing)
+    carried = {x for src in [l.cond] + list(l.env_out.values()) for x in T.walk(src) if x[0] == "sym" and x[1].startswith(f"loop{lid}:")}
+    breaks = [T.assume(g, l.guard) for g, _ in r.ev.loop_breaks.get(lid, [])]
+    go_on = T.mk_and([l.cond] + [T.mk_not(b) for b in breaks])
+    cands = list(carried) + [v for v in l.env_out.values() if any(c in set(T.walk(v)) for c in carried)]
+    ts = [x for x in cands if T.le(x, t_high) == go_on]
+    if not ts:
+        if len(carried & set(T.walk(go_on))) == 1 or len(breaks) == 1:
+            chk.add(rid, "scan runs while t <= t_high", False, f"the scan goes on while {T.show(go_on)[:200]}, expected t <= N/rate + phase of the receiving node", loc)
+        else:
+            chk.unknown(rid, "scan loop condition", f"cannot identify the scanned time in {T.show(go_on)[:160]}", loc)
         return
-    t = tsyms[0]
-    tname = t[1].split(":", 1)[1]
-    chk.add(rid, "scan runs while t <= t_high", l.cond == T.le(t, t_high), f"loop condition is {T.show(l.cond)[:200]}, expected t <= N/rate + phase of the receiving node", loc)
-    # update: i += 1 ; t = i / rate_in + phase_in
-    t_next = l.env_out.get(tname)
-    isyms = [x for x in T.walk(t_next or T.NONE) if x[0] == "sym" and x[1].startswith(f"loop{lid}:")]
-    ok = len(isyms) == 1 and t_next == T.add(T.div(T.add(isyms[0], T.ONE), rate_i), phase_i)
-    chk.add(rid, "scan visits consecutive sender ticks", ok, f"next scanned time is {T.show(t_next)[:200] if t_next else None}, expected (i + 1) / sender rate + sender phase", loc)
+    t = ts[0]
+    chk.add(rid, "scan runs while t <= t_high", True, "", loc)
+    if t in carried:
+        # the time is carried and advanced at the end of the body:  t = (i + 1) / rate_in + phase_in
+        tname = t[1].split(":", 1)[1]
+        t_next = l.env_out.get(tname)
+        isyms = [x for x in T.walk(t_next or T.NONE) if x in carried]
+        ok = len(isyms) == 1 and t_next == T.add(T.div(T.add(isyms[0], T.ONE), rate_i), phase_i)
+        chk.add(rid, "scan visits consecutive sender ticks", ok, f"next scanned time is {T.show(t_next)[:200] if t_next else None}, expected (i + 1) / sender rate + sender phase", loc)
+        t0 = l.pre.get(tname)
+        t_of_i = None
+    else:
+        # the time is computed from the carried index at the head of the body:  t = i / rate_in + phase_in
+        isyms = [x for x in T.walk(t) if x in carried]
+        ok = len(isyms) == 1 and t == T.add(T.div(isyms[0], rate_i), phase_i)
+        chk.add(rid, "scan visits consecutive sender ticks", ok, f"scanned time is {T.show(t)[:200]}, expected i / sender rate + sender phase", loc)
+        t0 = None
+        t_of_i = isyms[0] if ok else None
     if ok:
         iname = isyms[0][1].split(":", 1)[1]
         chk.add(rid, "scan index increments by 1", l.env_out.get(iname) == T.add(isyms[0], T.ONE), f"index update is {T.show(l.env_out.get(iname, T.NONE))[:120]}", loc)
@@ -163,19 +181,35 @@ def rule_tiling(chk: Check, view: AsyncView, rid: str):
         want_i0 = T.mk_ite(T.lt(T.ZERO, N), T.mk_call("int", [T.mk_call("//", [T.sub(t_low, phase_i), T.div(T.ONE, rate_i)])]), T.ZERO)
         chk.add(rid, "scan start index", i0 == want_i0, f"start index is {T.show(i0)[:240] if i0 else None}, expected int((t_low - sender phase) // sender period) "
                 "for N > 0 and 0 for the first step (which must also take everything before t_low)", loc)
-        t0 = l.pre.get(tname)
-        chk.add(rid, "scan start time", i0 is not None and t0 == T.add(T.div(i0, rate_i), phase_i), f"first scanned time is {T.show(t0)[:200] if t0 else None}, expected i0 / sender rate + sender phase", loc)
-    # count predicate: OR of the guards under which a tick is appended to the local list inside the loop
+        if t in carried:
+            chk.add(rid, "scan start time", i0 is not None and t0 == T.add(T.div(i0, rate_i), phase_i), f"first scanned time is {T.show(t0)[:200] if t0 else None}, expected i0 / sender rate + sender phase", loc)
+    # count predicate: the condition under which a tick is counted - an append to a local list whose length is queued, or an
+    # increment of a local counter that is queued
+    sel = one(queue_ops(r, "q_expected_select", "append"), "append on q_expected_select")
+    tsm = one(queue_ops(r, "q_expected_ts_max", "append"), "append on q_expected_ts_max")
+    tup = sel.args[0]
+    count = tup[1][1] if tup[0] == "tuple" and len(tup[1]) == 2 else T.NONE
+    region = T.mk_and([l.guard, go_on])
     apps = [e for e in r.events if e.kind == "local_append" and lid in e.loops]
     names = {e.name for e in apps}
-    if len(names) != 1:
-        chk.unknown(rid, "count predicate", f"expected appends to one local list inside the scan, found {sorted(names)}", loc)
+    counter = None
+    if count[0] == "sym" and count[1].startswith(f"loopout{lid}:"):
+        counter = count[1].split(":", 1)[1]
+    if counter is not None and counter in l.env_out:
+        csym = S(f"loop{lid}:{counter}")
+        step = T.assume(l.env_out[counter], region)
+        preds = None
+        chk.add(rid, "count only inside the scan", l.pre.get(counter) == T.ZERO, f"the counter starts at {T.show(l.pre.get(counter, T.NONE))[:80]}, expected 0", loc)
+        count_ok = True
+    elif len(names) == 1:
+        outside = [e for e in r.events if e.kind == "local_append" and e.name in names and lid not in e.loops]
+        chk.add(rid, "count only inside the scan", not outside, "the counted list is also appended outside the scan loop", loc)
+        preds = [T.assume(e.guard, region) for e in apps]
+        accs = [x for x in T.walk(count) if x[0] == "accum"]
+        count_ok = count[0] == "call" and count[1] == "len" and bool(accs) and all(a[1] == ("list", ()) for a in accs)
+    else:
+        chk.unknown(rid, "count predicate", f"expected appends to one local list (or increments of one local counter) inside the scan, found {sorted(names)}", loc)
         return
-    outside = [e for e in r.events if e.kind == "local_append" and e.name in names and lid not in e.loops]
-    chk.add(rid, "count only inside the scan", not outside, "the counted list is also appended outside the scan loop", loc)
-    region = T.mk_and([l.guard, l.cond])
-    preds = [T.assume(e.guard, region) for e in apps]
-    P = T.mk_or(preds)
     mismatches = []
     overlaps = []
     n_cases = 0
@@ -188,15 +222,23 @@ def rule_tiling(chk: Check, view: AsyncView, rid: str):
                 for lab, tv in reps.items():
                     for sk in (False, True):
                         for ge_phase in (True, False):
-                            val = {t: tv, N: F(n), rate_n: vr, phase_n: vp, SKIP: sk, phase_i: (tv - 10 if ge_phase else tv + 10), rate_i: F(1)}
-                            got = bool(T.evaluate(P, val))
+                            ph = tv - 10 if ge_phase else tv + 10
+                            val = {N: F(n), rate_n: vr, phase_n: vp, SKIP: sk, phase_i: ph, rate_i: F(1)}
+                            if t in carried:
+                                val[t] = tv
+                            else:
+                                val[t_of_i] = tv - ph  # t = i / 1 + phase
+                            if preds is not None:
+                                k = sum(1 for p in preds if T.evaluate(p, val))
+                            else:
+                                k = T.evaluate(step, {**val, csym: F(0)})
+                            got = k >= 1
                             in_window = (tl <= tv < th) if sk else (tl < tv <= th)
                             first = n == 0 and ((tv < tl) if sk else (tv <= tl))
                             want = ge_phase and (in_window or first)
                             n_cases += 1
                             if got != want:
                                 mismatches.append(((f"rate={vr},phase={vp}", n, lab, f"skip={sk}", f"t>=phase_in={ge_phase}"), got, want))
-                            k = sum(1 for p in preds if T.evaluate(p, val))
                             if k > 1:
                                 overlaps.append((n, lab, sk))
     except T.NoValue as e:
@@ -208,15 +250,8 @@ def rule_tiling(chk: Check, view: AsyncView, rid: str):
     # boundaries of consecutive steps coincide
     chk.add(rid, "t_high(N) == t_low(N+1)", T.subst(t_low, {N: T.add(N, T.ONE)}) == t_high, "window boundaries of consecutive steps do not coincide", loc)
     # the count is what is queued for the arrival max and for the selection
-    sel = one(queue_ops(r, "q_expected_select", "append"), "append on q_expected_select")
-    tsm = one(queue_ops(r, "q_expected_ts_max", "append"), "append on q_expected_ts_max")
-    tup = sel.args[0]
-    ok = tup[0] == "tuple" and len(tup[1]) == 2 and tup[1][1] == tsm.args[0] and tup[1][1][0] == "call" and tup[1][1][1] == "len" \
-        and tup[1][0] == T.mk_index(pop.term, T.const(1))
-    if ok:
-        accs = [x for x in T.walk(tup[1][1]) if x[0] == "accum"]
-        ok = bool(accs) and all(a[1] == ("list", ()) for a in accs)
-    chk.add(rid, "count queued for ts_max and selection", ok, f"q_expected_select gets {T.show(tup)[:120]}; both queues must receive len(list of counted ticks)", chk.loc(fi, sel.node))
+    ok = tup[0] == "tuple" and len(tup[1]) == 2 and tup[1][1] == tsm.args[0] and count_ok and tup[1][0] == T.mk_index(pop.term, T.const(1))
+    chk.add(rid, "count queued for ts_max and selection", ok, f"q_expected_select gets {T.show(tup)[:120]}; both queues must receive the number of counted ticks", chk.loc(fi, sel.node))
     order_ok = tsm.idx < sel.idx
     calls = [e for e in r.events if e.kind == "call" and e.name in ("self.push_ts_max", "self.push_selection")]
     chk.add(rid, "both consumers triggered", {e.name for e in calls} == {"self.push_ts_max", "self.push_selection"} and order_ok,
